@@ -108,7 +108,7 @@ type Plan struct {
 	// value); the model, which does not depend on positions, sees a sample of these programs only
 	NoModel bool
 	// Limit > 0: the program is a sweep of values at the reader's limits (see LimitKinds)
-	Limit, LimitPos int
+	Limit, LimitIdx, LimitPos int
 }
 
 // BatchSizes are the sizes of WriteCompressed batches that get explored beyond the small ones:
@@ -158,6 +158,7 @@ type Result struct {
 	Limits    bool   // a sweep along the reader's limits
 	MayEnd    bool   // ... in which an operation other than Put, WriteCompressed, OpenStream may fail
 	RefusedRefs map[pdf.Reference]bool // the references of refused calls
+	UnsureRefs  map[pdf.Reference]bool // ... where the number was picked blindly: an object the Writer made for itself may have it
 	Refused   []int  // Put, WriteCompressed, OpenStream calls that were refused; the program went on
 	RefusedText []string
 }
@@ -175,6 +176,7 @@ type runner struct {
 	inStream bool
 	final    bool
 	curRefs     []pdf.Reference // the references the current call is about
+	blind       map[pdf.Reference]bool // numbers picked without asking Alloc
 	lastRefused bool // the operation just finished was refused (and the program goes on)
 	safe     bool // a planned program: no operation that may legitimately be refused (it would end the program before the file exists)
 }
@@ -185,6 +187,9 @@ func (x *runner) desc(f string, a ...any) {
 }
 
 func (x *runner) remember(o pdf.Object) {
+	if x.res.Limits {
+		return // values of megabytes; the arguments are watched in every other program
+	}
 	x.args = append(x.args, argRec{op: x.res.NOps, obj: o, fp: FP(o)})
 }
 
@@ -304,7 +309,14 @@ func (x *runner) stepR(cls, text string, resumable bool) bool {
 			x.res.RefusedRefs = map[pdf.Reference]bool{}
 		}
 		for _, r := range x.curRefs {
-			x.res.RefusedRefs[r] = true
+			if x.blind[r] {
+				if x.res.UnsureRefs == nil {
+					x.res.UnsureRefs = map[pdf.Reference]bool{}
+				}
+				x.res.UnsureRefs[r] = true
+			} else {
+				x.res.RefusedRefs[r] = true
+			}
 		}
 		x.res.Refused = append(x.res.Refused, idx)
 		x.res.RefusedText = append(x.res.RefusedText, fmt.Sprintf("op %d: %s", idx, text))
@@ -411,6 +423,10 @@ func (x *runner) pickRef() (pdf.Reference, bool) {
 		}
 		x.res.UserRefs = append(x.res.UserRefs, ref)
 		x.res.Provoked = true // may collide with a number in use
+		if x.blind == nil {
+			x.blind = map[pdf.Reference]bool{}
+		}
+		x.blind[ref] = true
 		return ref, true
 	default:
 		return x.alloc()
